@@ -101,8 +101,12 @@ def main():
     if not a.no_evidence and not a.replay and not a.rule:
         write_evidence(pid, tier, seed, F, results, errors, known_hit, unlisted, configs, cfg_diff, selftest, wall)
     n_inst = sum(len(r.instances) for r in results)
-    print("%s: %d rules, %d instances, %d violations (%d known), %d check errors, %.1fs [%s]" % (
-        pid, len(results), n_inst, len(viol), len(known_hit), len(errors), wall, tier))
+    try:
+        print("%s: %d rules, %d instances, %d violations (%d known), %d check errors, %.1fs [%s]" % (
+            pid, len(results), n_inst, len(viol), len(known_hit), len(errors), wall, tier))
+        sys.stdout.flush()
+    except BrokenPipeError:
+        pass
     if unlisted:
         return 1
     if errors:
